@@ -120,11 +120,15 @@ FILES = {"doc.pt": F_DOC, "err.pt": F_ERR, "i18n.pt": F_I18N, "lib.pt": F_LIB, "
          "self.pt": F_SELF,
          "x/page.pt": F_XPAGE, "x/part.pt": '<span>part-x ${name}${y()}</span>',
          "y/page.pt": F_XPAGE, "y/part.pt": '<span>part-y ${name}${y()}</span>'}
-FILE_MACROS = {"lib.pt": ["m", "n"], "self.pt": ["a", "b"]}
+FILE_MACROS = {"lib.pt": ["m", "n"], "self.pt": ["a", "b", "c"]}
 # what a deployer puts in place of a file while the process is running
 FILES_V2 = {
+    # (the second version defines one more macro, the third drops one)
     "self.pt": F_SELF.replace("A-${name}", "A2-${name}")
-                     .replace("fx-${name}", "fx2-${name}"),
+                     .replace("fx-${name}", "fx2-${name}")
+                     .replace('<p metal:define-macro="b">',
+                              '<p metal:define-macro="c">C2-${name}</p>'
+                              '<p metal:define-macro="b">'),
     "lib.pt": F_LIB.replace("lib:${name}", "lib2:${name}")
                    .replace("n:${name}", "n2:${name}"),
     "main.pt": F_MAIN.replace("<h1>${who}</h1>", "<h2>${who}!</h2>"),
@@ -134,14 +138,37 @@ FILES_V2 = {
 }
 USE_CALLER = '<section metal:use-macro="t.macros[\'%s\']"><u metal:fill-slot="s">cs-${name}</u><u metal:fill-slot="x">cx-${name}</u></section>'
 FILES_V3 = {n: b.replace("A2-", "A3-").replace("fx2-", "fx3-")
+             .replace("C2-", "C3-")
+             .replace('<p metal:define-macro="b">B-${name}</p>', "")
              .replace("lib2:", "lib3:").replace("n2:", "n3:")
              .replace("<h2>${who}!</h2>", "<h3>${who}?</h3>")
              .replace('class="v2"', 'class="v3"')
              .replace("Hello again", "Hello once more")
             for n, b in FILES_V2.items()}
 assert all(FILES_V3[n] != FILES_V2[n] for n in FILES_V2)
-_VMARK = re.compile(r"A[23]-|fx[23]-|lib[23]:|n[23]:|<h[23]>|[!?]</h[23]>|"
+_VMARK = re.compile(r"A[23]-|fx[23]-|C[23]-|lib[23]:|n[23]:|<h[23]>|[!?]</h[23]>|"
                     r'class=\"?v[23]\"?|Hello again|Hello once more')
+
+
+def _pieces(text: str) -> list:
+    """Tags and text runs of an output, version markers taken out."""
+    return [x for x in re.split(r"(<[^>]*>)", _VMARK.sub("@", text)) if x]
+
+
+def spans_both(r: list, v2: list, v3: list) -> bool:
+    """Is ``r`` what a use that was under way while the file was replaced
+    can show - parts of the second version and parts of the third?"""
+    if r[0] != "ok":
+        return False
+    if version_blind(r) == version_blind(v3):
+        return True
+    if v2[0] != "ok" or v3[0] != "ok":
+        return False
+    if isinstance(r[1], list):
+        return set(r[1]) <= set(v2[1]) | set(v3[1])
+    return isinstance(r[1], str) and isinstance(v2[1], str) and \
+        isinstance(v3[1], str) and \
+        set(_pieces(r[1])) <= set(_pieces(v2[1])) | set(_pieces(v3[1]))
 
 
 def version_blind(r: list) -> list:
@@ -866,9 +893,8 @@ class C14(CheckBase):
                     # that starts now gets the third version)
                     oe = obs_exp3[si] if wrote_at else obs_exp[si]
                     if len(wrote_at) > w0 and r is not None and (
-                            r == obs_exp[si] or (
-                                r[0] == "ok" and version_blind(r) ==
-                                version_blind(oe))):
+                            r == obs_exp[si] or
+                            spans_both(r, obs_exp[si], oe)):
                         oe = r      # (it happened during this very render)
                     if r is not None and r != oe:
                         observer_bad.append((sched.step, label, op, r, oe))
@@ -983,6 +1009,18 @@ class C14(CheckBase):
             if got[0] == "ok" and got != v3 and \
                     version_blind(got) == version_blind(v3):
                 return "mixed-versions-after-replace-during-use"
+            if got[0] == "ok" and isinstance(got[1], list) and \
+                    v2[0] == "ok" and v3[0] == "ok" and \
+                    set(got[1]) <= set(v2[1]) | set(v3[1]):
+                # (a macro list stitched from the two versions)
+                return "mixed-versions-after-replace-during-use"
+            if got[0] == "ok" and isinstance(got[1], str) and \
+                    v2[0] == "ok" and v3[0] == "ok" and \
+                    set(_pieces(got[1])) <= set(_pieces(v2[1])) | \
+                    set(_pieces(v3[1])):
+                # (the versions differ in their macro sets: every piece of
+                # the output - tag or text run - comes from one of them)
+                return "mixed-versions-after-replace-during-use"
             return sig
 
         observer_bad: list = []
@@ -1058,8 +1096,8 @@ class C14(CheckBase):
                     w3 = exp3[canonical(op)]
                     if began >= wrote_at[0] or r == w3:
                         want = w3
-                    elif ended >= wrote_at[0] and r[0] == "ok" and \
-                            version_blind(r) == version_blind(w3):
+                    elif ended >= wrote_at[0] and \
+                            spans_both(r, exp[canonical(op)], w3):
                         want = r
                 # (verdicts, not texts: the log must not depend on the
                 # interpreter's hash seed - that axis is sub-check (b))
